@@ -5,9 +5,7 @@ from props import rt_common as R
 ID = "C11"; MODEL = "rt"; IMPL = "rt"
 COQ_PROP = "Properties/C11.v"; COQ_DIRS = ["Common", "CQueue", "Runtime"]
 COQ_MODULE = "Runtime.Model"; RUN_FN = "run"
-THEOREMS = ["C11_limited_log_is_longest_admissible_prefix", "C11_longest_admissible_prefix_spec",
-            "C11_nothing_lost", "C11_end_time_and_count", "C11_event_count_limit", "C11_time_limit",
-            "C11_and_or", "C11_builder_composes_with_or", "C11_run_total"]
+THEOREMS = ["C11_limited_log_is_longest_admissible_prefix", "C11_longest_admissible_prefix_spec", "C11_nothing_lost", "C11_end_time_and_count", "C11_event_count_limit", "C11_time_limit", "C11_and_or", "C11_limit_algebra", "C11_builder_composes_with_or", "C11_run_total"]
 QUICK_N = 2500; THOROUGH_N = 150000
 RULE = ("scripts = random event program (1-5 labels whose handlers schedule follow-ups with zero / unit / bucket-sized delays"
         " under a global budget, 0-8 pre-run events over 1-4 distinct timestamps so that ties are frequent, start time"
@@ -21,21 +19,19 @@ TRUSTED = ["the future event set is the two-list specification CQueue.Spec (C01_
            "user code is the scripted handler of harness/src/bin/rt.rs (a table label -> add_event_in/add_event actions"
            " under a global budget)",
            "usize/Duration overflow is outside the model"]
-ASSUMPTIONS = ["times fit in 63 bits; start_time/bucket width below ~2e5 so that both runners finish quickly",
-               "pre-run events of C11 scripts are scheduled strictly after a non-zero start time (events at or before a"
-               " non-zero start time are C02's subject)"]
+ASSUMPTIONS = ["times fit in 63 bits; start_time/bucket width below ~2e5 so that both runners finish quickly"]
 
 
 def gen(rng, n):
     for _ in range(n):
-        s = R.gen_program(rng, below_start=False, at_start=False)
+        s = R.gen_program(rng, below_start=True, at_start=True)
         log = R.unlimited(s)
         s.calls = R.gen_calls(rng, log, s.start)
         yield s.encode()
 
 
 def exhaustive():
-    for s in R.small_programs(at_start=False):
+    for s in R.small_programs(at_start=True):
         log = R.unlimited(s)
         ts = sorted(set(t for (_, t) in log))
         leaves = [('count', n) for n in range(0, len(log) + 2)]
